@@ -521,6 +521,57 @@ def i_parse_bytes(I, args, ins):
     return None
 
 
+@intrinsic('verifSignedResponse')
+def i_signed_response(I, args, ins):
+    ctx = I.ctx
+    sp, answers, name_id, now = args
+    s = ctx.fresh_str('samlresponse')
+    ctx.ghost.setdefault('responses', {})[str(s)] = {'answers': answers, 'nameid': name_id, 'now': now, 'sp': ctx.force(sp)}
+    ctx.ghost.setdefault('string_tag', {})[str(s)] = ('response',)
+    return s
+
+
+def summary_parse_response(I, args, ins):
+    """Summary of (*saml.ServiceProvider).ParseResponse on a valid, trusted-signed, fresh response that answers
+    request ID x: an assertion iff IdP-initiated login is allowed or x is one of the IDs handed in (the C04 clauses,
+    discharged on the real function by Harness_C04_flow / Harness_C04_assertion); anything else is an error."""
+    from ..core import SUMMARIES
+    ctx = I.ctx
+    sp, req, ids = args
+    r = ctx.load(ctx.force(req))
+    pf = ctx.force(r[I.prog.field_index('net/http.Request', 'PostForm')])
+    val = ''
+    if pf is not None:
+        for k, vs in ctx.store[pf.cell]:
+            if ctx.branch(I.eq(k, 'SAMLResponse')):
+                el = I.slice_elems(vs)
+                val = el[0] if el else ''
+                break
+    rec = ctx.ghost.get('responses', {}).get(str(val)) if is_sym(val) else None
+    T = SAML + 'InvalidResponseError'
+    err = Iface('*' + T, ctx.alloc(I.prog.zero(T).with_field(I.prog.field_index(T, 'PrivateErr'), ctx.new_error('summary', msg='response rejected')), 'ire'))
+    if rec is None:
+        return TupleV((None, err))
+    spv = ctx.load(ctx.force(sp))
+    allow = spv[I.prog.field_index(SAML + 'ServiceProvider', 'AllowIDPInitiated')]
+    ok = allow
+    for x in I.slice_elems(ids):
+        ok = b_or(ok, I.eq(x, rec['answers']))
+    ctx.ghost.setdefault('parse_response_ids', []).append(list(I.slice_elems(ids)))
+    if not ctx.branch(ok):
+        return TupleV((None, err))
+    A = SAML + 'Assertion'
+    a = I.prog.zero(A)
+    nid = ctx.alloc(I.prog.zero(SAML + 'NameID').with_field(I.prog.field_index(SAML + 'NameID', 'Value'), rec['nameid']), 'nameid')
+    subj = ctx.alloc(I.prog.zero(SAML + 'Subject').with_field(I.prog.field_index(SAML + 'Subject', 'NameID'), nid), 'subject')
+    a = a.with_field(I.prog.field_index(A, 'Subject'), subj)
+    return TupleV((ctx.alloc(a, 'assertion'), None))
+
+
+from ..core import SUMMARIES as _SM
+_SM['parse-response-answers'] = summary_parse_response
+
+
 def install(prog):
     pass
 
